@@ -19,3 +19,16 @@ def req_step(state, n=4, b=2, h=2, tier='quick', timeout=600, mem_gb=8, exact=Fa
               tier=tier, timeout=timeout, mem_gb=mem_gb,
               statement='real htp_connp_REQ_%s called from an arbitrary INV_A pre-state meets the state-function contract (return set, offsets, DATA => chunk consumed, progress, pointers handed out valid) and its state-specific clause' % REQ_STATES[state],
               bounds='chunk <= %d bytes (all values), carry buffer <= %d, pending header <= %d, all stub return codes' % (n, b, h), **kw)
+
+RES_STATES = {1: 'IDLE', 2: 'LINE', 3: 'HEADERS', 4: 'BODY_DETERMINE', 5: 'IDENTITY_CL', 6: 'IDENTITY_CLOSE', 7: 'CHUNKED_LENGTH', 8: 'CHUNKED_DATA', 9: 'CHUNKED_DATA_END', 10: 'FINALIZE'}
+def res_step(state, n=4, b=2, h=2, tier='quick', timeout=600, mem_gb=8, exact=False, prefix='res', extra=None, **kw):
+    d = {'STATE': state, 'N': n, 'B': b, 'H': h, 'FM_CAP': b + n + 2, 'FA_CAP': max(h + b + n + 4, 34)}
+    if exact: d['EXACT'] = 1
+    if extra: d.update(extra)
+    nm = '%s.%s.N%d%s' % (prefix, RES_STATES[state], n, '.exact' if exact else '')
+    lim = n + b + 4
+    us = ['htp_connp_RES_HEADERS.0:%d' % (n + 3), 'htp_chomp.0:%d' % lim, 'memchr.0:%d' % lim, 'strlen.0:40', 'bstr_util_cmp_mem_nocase.0:30', 'bstr_to_lowercase.0:30', 'htp_connp_RES_BODY_DETERMINE.1:30', 'bstr_util_mem_index_of_mem_nocase.0:30', 'bstr_util_mem_index_of_mem_nocase.1:30', 'bstr_util_mem_index_of_mem_nocasenorzero.0:30', 'bstr_util_mem_index_of_mem_nocasenorzero.1:30']
+    return Ob(nm, 'stream/res_step.c', units=STREAM_UNITS, models=STREAM_MODELS, remove=STREAM_RM, defines=d, unwind=(n + b + 3 if state == 3 else lim + 2), unwindset=us, restrict_by=RES_FP,
+              tier=tier, timeout=timeout, mem_gb=mem_gb,
+              statement='real htp_connp_RES_%s called from an arbitrary INV_A pre-state meets the state-function contract and its state-specific clause' % RES_STATES[state],
+              bounds='chunk <= %d bytes (all values), carry buffer <= %d, pending header <= %d, all stub return codes' % (n, b, h), **kw)
